@@ -329,7 +329,8 @@ func (s C14) Apply(env world.Env, mm mc.Model, ev string) mc.Step {
 	return st
 }
 
-var c14Settings = [][2]int64{{1, 1}, {2, 1}, {2, 2}, {3, 2}, {3, 3}, {3, 0}}
+// (4,2): one more than the three eligible providers, but not more than all active ones (the prover and its sister node included)
+var c14Settings = [][2]int64{{1, 1}, {2, 1}, {2, 2}, {3, 2}, {3, 3}, {3, 0}, {4, 2}}
 
 func init() {
 	for _, sm := range c14Settings {
@@ -338,7 +339,7 @@ func init() {
 	regScenario(C14{Size: 3, Min: 2, Extra: true})
 	regScenario(C14{Size: 2, Min: 2, Extra: true})
 	Props["C14"] = Prop{Level: "model_checking", Run: func(r *mc.Run, tier string) {
-		r.Rules = append(r.Rules, "for each (form size, minimum) in {(1,1),(2,1),(2,2),(3,2),(3,3),(3,0)}: BFS over request-attestation, request-report, Attest and Report by every account in {same-domain provider, 3 eligible providers, registered provider without proofs, the prover itself, unregistered proof holder} incl. repeats and never-requested forms, NextBlock (changes the shuffle); reference = set of distinct named signers per form")
+		r.Rules = append(r.Rules, "for each (form size, minimum) in {(1,1),(2,1),(2,2),(3,2),(3,3),(3,0),(4,2)}: BFS over request-attestation, request-report, Attest and Report by every account in {same-domain provider, 3 eligible providers, registered provider without proofs, the prover itself, unregistered proof holder} incl. repeats and never-requested forms, NextBlock (changes the shuffle); reference = set of distinct named signers per form")
 		r.Assumptions = append(r.Assumptions, "7 signers, one file, forms created at up to 3 heights", strings.TrimSpace("whether a reached quorum completes the form is counted, not enforced (the statement demands safety only)"))
 		for _, sm := range c14Settings {
 			r.AddExplore(C14{Size: sm[0], Min: sm[1]}, opts(tier, 12, 16, 15, 240, 30, 300))
